@@ -581,7 +581,7 @@ fn gen_simple_glyph(rng: &mut Rng) -> GK {
     };
     let mut pts = vec![];
     let mut ends = vec![];
-    let grid: i64 = *rng.pick(&[4, 40, 800, 6000]);
+    let grid: i64 = *rng.pick(&[4, 40, 800, 6000, 16000]);
     for _ in 0..ncont {
         let cap = if rng.chance(1, 5) { 10 } else { 5 };
         let k = 1 + rng.below(cap) as usize;
@@ -743,7 +743,8 @@ pub fn gen_e2e(rng: &mut Rng) -> String {
 
     // HVAR
     let hvar = if rng.chance(1, 3) {
-        let (rs, ivds, regs, nivd) = gen_ivs(rng, ac);
+        let dirty = rng.chance(1, 12);
+        let (rs, ivds, regs, nivd) = gen_ivs(rng, ac, if dirty { 0 } else { n.max(4) }, !dirty);
         for r in regs.chunks(ac) {
             all_axes.push(r.to_vec());
         }
@@ -771,7 +772,8 @@ pub fn gen_e2e(rng: &mut Rng) -> String {
     vals[3] = rng.range(0, 2000);
     vals[4] = rng.range(0, 2000);
     let mvar = if rng.chance(1, 3) {
-        let (rs, ivds, regs, nivd) = gen_ivs(rng, ac);
+        let dirty = rng.chance(1, 12);
+        let (rs, ivds, regs, nivd) = gen_ivs(rng, ac, if dirty { 0 } else { n.max(4) }, !dirty);
         for r in regs.chunks(ac) {
             all_axes.push(r.to_vec());
         }
